@@ -131,18 +131,35 @@ def _is_lock_error(e):
 
 _LIVE = []
 _API = None
+_ARMED = False
 
 
 def wk_preload():
     import androguard.session      # noqa  (heavy: done once in the zygote, the workers are forked from it)
     import sqlalchemy.event        # noqa
-    try:                           # best effort: pull in the lazily imported parts (dialect, reflection, alembic)
-        s = androguard.session.Session(db_url="sqlite://")
-        s.db.close()
-    except Exception:
-        pass
+    wk_warm()
     import gc
     gc.collect()
+    gc.freeze()                    # forked workers do not re-scan (and thereby copy) the zygote's heap
+
+
+def wk_warm():
+    """Best effort, harness only: run the constructor twice on a throw-away database so that lazily imported parts
+    (dialect, reflection, alembic) are loaded in the zygote and a forked worker's pages are faulted in before its
+    first real step.  Scheduling points are disarmed meanwhile."""
+    global _ARMED
+    _ARMED = False
+    d = tempfile.mkdtemp(prefix="verif_c36_warm_")
+    try:
+        from androguard.session import Session
+        for _ in range(2):
+            s = Session(db_url="sqlite:///%s/w.db" % d)
+            s.db.close()
+            del s
+    except Exception:
+        pass
+    finally:
+        shutil.rmtree(d, ignore_errors=True)
 
 
 def wk_install(api):
@@ -158,18 +175,20 @@ def wk_install(api):
 
     @event.listens_for(Engine, "before_cursor_execute")
     def _before(conn, cursor, statement, parameters, context, executemany):   # noqa
-        k = classify(statement)
+        k = classify(statement) if _ARMED else None
         if k:
             api.point(k, {"sql": " ".join(statement.split())[:120], "params": _jsonable(parameters)})
 
     @event.listens_for(Engine, "handle_error")
     def _on_error(ectx):                                   # noqa
-        if _is_lock_error(ectx.original_exception):
+        if _ARMED and _is_lock_error(ectx.original_exception):
             api.flag("blocked")
 
 
 def wk_run(arg):
+    global _ARMED
     from androguard.session import Session
+    _ARMED = True
     try:
         s = Session(db_url=arg["db_url"])
     except Exception as e:
